@@ -43,6 +43,13 @@ fn cfg_of(name: &str) -> crate::sim::PairCfg {
             c.client.name = name.into();
             c
         }
+        "tokens2" => {
+            // the server hands out two address-validation tokens (NEW_TOKEN) after the handshake
+            let mut c = cfg_by_name("default");
+            c.tokens_sent = 2;
+            c.client.name = name.into();
+            c
+        }
         _ => cfg_by_name(name),
     }
 }
@@ -92,6 +99,9 @@ struct Out {
     timeouts_rel: Vec<Option<Duration>>,
     panic: Option<String>,
     reset_sent: bool,
+    /// NEW_TOKEN tokens whose issue time is not the supplied clock's reading at emission
+    token_clock: Vec<String>,
+    tokens_checked: u64,
 }
 
 fn full_trace(p: &StdPair) -> u64 {
@@ -235,8 +245,12 @@ fn run(process_base: Instant, hs: &[Hist], r: &Run) -> Out {
         (p, reset_sent)
     });
     match res {
-        Err(e) => Out { sem_lines: vec![], sem: 0, sem_once: 0, dump: String::new(), abs: 0, abs_lines: vec![], trace: 0, steps: 0, streak: 0, post_drain: vec![], timeouts_rel: vec![], panic: Some(e), reset_sent: false },
-        Ok((p, reset_sent)) => Out {
+        Err(e) => Out { sem_lines: vec![], sem: 0, sem_once: 0, dump: String::new(), abs: 0, abs_lines: vec![], trace: 0, steps: 0, streak: 0, post_drain: vec![], timeouts_rel: vec![], panic: Some(e), reset_sent: false, token_clock: vec![], tokens_checked: 0 },
+        Ok((p, reset_sent)) => {
+          let (token_clock, tokens_checked) = token_clock_check(&p);
+          Out {
+            token_clock,
+            tokens_checked,
             reset_sent,
             sem_lines: if DUMP.load(std::sync::atomic::Ordering::Relaxed) {
                 let mut v = vec![];
@@ -260,8 +274,42 @@ fn run(process_base: Instant, hs: &[Hist], r: &Run) -> Out {
             post_drain: p.w.post_drain_output.clone(),
             timeouts_rel: vec![],
             panic: None,
-        },
+          }
+        }
     }
+}
+
+/// Every address-validation token the server hands out in NEW_TOKEN frames carries its issue time;
+/// it must be the reading of the clock the server was given (the harness `SimTime`), not of any other
+fn token_clock_check(p: &StdPair) -> (Vec<String>, u64) {
+    use crate::wire::WFrame;
+    let mut out = vec![];
+    let mut n = 0u64;
+    let key = crate::sim::token_key(7 + p.w.nodes[SERVER].seed - 1);
+    let epoch = 50 * 365 * 86400u64;
+    for r in &p.w.recs {
+        if let Rec::Emit { node, data, dst, t, .. } = r {
+            if *node != SERVER {
+                continue;
+            }
+            for (_, frames) in crate::ledger::decode(data, crate::ledger::cid_len_of(&p.w, *dst)) {
+                for f in frames {
+                    if let WFrame::NewToken(tok) = f {
+                        n += 1;
+                        let now = epoch + t.as_secs();
+                        match proto::verif_codec::token_check(key.clone(), &tok, &[0; 8], *dst, now, 15, 1_000_000_000) {
+                            Ok(v) => match v.logged {
+                                Some((_, issued)) if issued.abs_diff(now) <= 2 => {}
+                                other => out.push(format!("NEW_TOKEN token emitted at {t:?} (supplied clock: {now} s since the epoch) decodes to {other:?} (nonce, issue time in s)")),
+                            },
+                            Err(()) => out.push(format!("NEW_TOKEN token emitted at {t:?} does not decode under the server's own token key")),
+                        }
+                    }
+                }
+            }
+        }
+    }
+    (out, n)
 }
 
 fn histories(thorough: bool) -> Vec<Hist> {
@@ -285,6 +333,9 @@ fn histories(thorough: bool) -> Vec<Hist> {
     v.push(mk("lat0", Wl::W2, vec![], vec![], "none"));
     v.push(mk("lat0", Wl::W2, vec![(0, 4), (2, 0), (7, 0)], vec![], "none"));
     v.push(mk("lat0", Wl::W6, vec![(3, 0)], vec![], "none"));
+    // NEW_TOKEN tokens carry an issue time: the only wall-clock value the core handles
+    v.push(mk("tokens2", Wl::W1, vec![], vec![], "none"));
+    v.push(mk("tokens2", Wl::W2, vec![(3, 0)], vec![], "none"));
     // rate-limited senders (the pacer decides when data may leave)
     v.push(mk("pacing2k", Wl::W1, vec![], vec![], "none"));
     v.push(mk("pacing20k", Wl::W2, vec![], vec![], "none"));
@@ -316,7 +367,7 @@ pub fn main(args: &Args) -> ! {
     let thorough = args.tier == Tier::Thorough;
     let dl = deadline(if thorough { 1200 } else { 45 });
     let hs = histories(thorough);
-    rep.rule = "Differential runs over a list of input histories H (fault-free baselines of several configurations/workloads incl. Retry, CID rotation, key update, NAT rebinding, migration and unroutable datagrams that draw stateless resets, plus every single-deviation history over the fate alphabet in the first datagrams): (1) H twice -> identical full trace (instant, destination, bytes of every datagram; every event; every timer firing); (2) H with every supplied Instant shifted by 1 s / 1 day / 10 years -> identical trace relative to the base; (3) for EVERY step index j of H a spurious handle_timeout(now) or an extra poll round is inserted -> identical trace; (4) a timer never fires more than 16 consecutive times at one instant; (3b) script-free histories driven by a busy-polling loop (extra transmit polls every 20/50/100/1000 us of virtual time, incl. rate-limited senders) -> same events and loss counters as the event-driven run; (5) after both sides are drained (by the close timer, or early by the peer's stateless reset arriving 1 / 40 ms after the close) every datagram of the run is fed again and ten timeouts are delivered -> no transmit, no event, no endpoint event. Non-trivial = a run with a shift or an inserted call; distinct = distinct (history, variant) pairs.".into();
+    rep.rule = "Differential runs over a list of input histories H (fault-free baselines of several configurations/workloads incl. Retry, CID rotation, key update, NAT rebinding, migration and unroutable datagrams that draw stateless resets, plus every single-deviation history over the fate alphabet in the first datagrams): (1) H twice -> identical full trace (instant, destination, bytes of every datagram; every event; every timer firing); (2) H with every supplied Instant shifted by 1 s / 1 day / 10 years -> identical trace relative to the base; (3) for EVERY step index j of H a spurious handle_timeout(now) or an extra poll round is inserted -> identical trace; (3c) every NEW_TOKEN token the server emits decodes (server's own key) to an issue time equal to the supplied clock's reading at emission; (4) a timer never fires more than 16 consecutive times at one instant; (3b) script-free histories driven by a busy-polling loop (extra transmit polls every 20/50/100/1000 us of virtual time, incl. rate-limited senders) -> same events and loss counters as the event-driven run; (5) after both sides are drained (by the close timer, or early by the peer's stateless reset arriving 1 / 40 ms after the close) every datagram of the run is fed again and ten timeouts are delivered -> no transmit, no event, no endpoint event. Non-trivial = a run with a shift or an inserted call; distinct = distinct (history, variant) pairs.".into();
     // baselines
     let (bres, _) = e3((0..hs.len()).collect::<Vec<_>>(), dl, |&i| run(pbase, &hs, &Run { h: i, shift: Duration::ZERO, extra: None, drained_part: false, busy_us: None, reset_after_us: None }));
     let base: Vec<(u64, u64)> = bres.iter().map(|(_, o)| (o.trace, o.steps)).collect();
@@ -366,6 +417,7 @@ pub fn main(args: &Args) -> ! {
     let mut n_ins = 0u64;
     let mut n_drain = 0u64;
     let mut n_busy = 0u64;
+    let mut n_tokens = 0u64;
     let mut n_reset = 0u64;
     for (r, o) in &res {
         rep.evaluations += 1;
@@ -375,6 +427,10 @@ pub fn main(args: &Args) -> ! {
         if let Some(p) = &o.panic {
             rep.violation(Violation { signature: "panic".into(), what: format!("{desc}: panic {p}"), replay: rj.clone() });
             continue;
+        }
+        n_tokens += o.tokens_checked;
+        if let Some(w) = o.token_clock.first() {
+            rep.violation(Violation { signature: "token-issue-time-not-from-supplied-clock".into(), what: format!("{desc}: {w}"), replay: rj.clone() });
         }
         let mut hh = std::collections::hash_map::DefaultHasher::new();
         use std::hash::{Hash, Hasher};
@@ -430,7 +486,10 @@ pub fn main(args: &Args) -> ! {
             n_ins += 1;
         }
     }
-    rep.part("differential", json!({"histories": hs.len(), "runs": total, "executed": res.len(), "time_shift_runs": n_shift, "insertion_runs": n_ins, "drained_runs": n_drain, "busy_polling_runs": n_busy, "drained_early_by_stateless_reset_runs": n_reset, "capped": capped}));
+    if n_tokens == 0 {
+        machinery("vacuity guard: no NEW_TOKEN token was ever emitted");
+    }
+    rep.part("differential", json!({"histories": hs.len(), "runs": total, "executed": res.len(), "time_shift_runs": n_shift, "insertion_runs": n_ins, "drained_runs": n_drain, "busy_polling_runs": n_busy, "new_token_issue_times_checked": n_tokens, "drained_early_by_stateless_reset_runs": n_reset, "capped": capped}));
     rep.sample(json!({"history":{"cfg":"default","wl":"W2","devs":[[7,0]]},"variant":{"inserted":"SpuriousTimeout(client) at step 31"},"meaning":"the run with datagram #7 dropped is repeated with one extra handle_timeout(now)+poll round on the client after step 31; every later datagram, event and timer must be identical"}));
     rep.assumptions = vec![
         "entropy: EndpointConfig::rng_seed fixed, counter-based ConnectionIdGenerator and initial_dst_cid_provider supplied by the harness (the built-in generators draw from the OS RNG by design)".into(),
